@@ -170,6 +170,8 @@ func (ip *fakeIdp) par(w http.ResponseWriter, r *http.Request) {
 	ip.mu.Lock()
 	defer ip.mu.Unlock()
 	ip.parCalls = append(ip.parCalls, r.PostForm)
+	addSecret("client_assertion", r.PostForm.Get("client_assertion"))
+	addSecret("client_secret", r.PostForm.Get("client_secret"))
 	req := ip.parseAuth(r.PostForm)
 	uri := "urn:ietf:params:oauth:request_uri:" + strconv.Itoa(ip.seq)
 	ip.parURIs[uri] = req
@@ -198,6 +200,10 @@ func (ip *fakeIdp) token(w http.ResponseWriter, r *http.Request) {
 	call := &tokenCall{N: len(ip.calls), Grant: f.Get("grant_type"), Code: f.Get("code"), Verifier: f.Get("code_verifier"), RedirectURI: f.Get("redirect_uri"),
 		RefreshToken: f.Get("refresh_token"), Assertion: f.Get("client_assertion"), Secret: f.Get("client_secret"), Form: f}
 	ip.calls = append(ip.calls, call)
+	addSecret("code_verifier", call.Verifier)
+	addSecret("client_assertion", call.Assertion)
+	addSecret("client_secret", call.Secret)
+	addSecret("refresh_token", call.RefreshToken)
 	if call.Grant == "refresh_token" {
 		ip.usedRefresh[call.RefreshToken]++
 	}
@@ -262,6 +268,9 @@ func (ip *fakeIdp) token(w http.ResponseWriter, r *http.Request) {
 		ip.accessIdx[at] = 0
 		ip.idIdx[idt] = 0
 		ip.issuedPairs = append(ip.issuedPairs, [2]string{at, rt})
+		addSecret("access_token", at)
+		addSecret("refresh_token", rt)
+		addSecret("id_token", idt)
 		resp := map[string]any{"access_token": at, "token_type": "Bearer", "refresh_token": rt, "expires_in": int64(ip.tokenDuration.Seconds())}
 		if !ip.omitIDToken {
 			resp["id_token"] = idt
@@ -281,6 +290,8 @@ func (ip *fakeIdp) token(w http.ResponseWriter, r *http.Request) {
 		ip.refresh[rt] = &rtData{sid: d.sid, sub: d.sub, gen: d.gen + 1}
 		ip.accessIdx[at] = d.gen + 1
 		ip.issuedPairs = append(ip.issuedPairs, [2]string{at, rt})
+		addSecret("access_token", at)
+		addSecret("refresh_token", rt)
 		call.Status, call.Outcome = 200, "ok"
 		w.Header().Set("content-type", "application/json")
 		json.NewEncoder(w).Encode(map[string]any{"access_token": at, "token_type": "Bearer", "refresh_token": rt, "expires_in": int64(ip.tokenDuration.Seconds())})
